@@ -104,7 +104,7 @@ func c09Corpus(tier string) []*gen.Expr {
 
 var c09Extra = []string{"F in [5, 1, 3, 1, 4, 2]", `X in ["b", "a", "b", "c"]`, "F not in [2, 2, 1]", `["ab", S matches "a" + "b"]`, `S matches "a" + "b" and "ab" == S`, "Zz + 1", "Zz", "Zq == nil",
 	"PtrOnly()", "PtrOnly() + I", "O.Get() + P.Get()", `{a: 1, b: 2, c: 3}`, `M["zz"]`, `MA["zz"]`, "A[1:2]", "filter(A, {# > 1})", "SA[0:1]", "map(OS, {.Next})", "O?.Next", "AA", "OS[0]",
-	"{(O): 1}", "{(S): I, (P): 2}", "{(OS[0]): S}", "{(I): 1, (F): 2}", "I %\t(I - I)", "A[7] +\t1", "[\"a\tb\", A[9]]", "\tI % (J - 2)", "map(A, {#\t% (I - 1)})"}
+	"{(O): 1}", "{(S): I, (P): 2}", "{(PI): 1}", "{(S): 1, (PI): 2}", "PI == PI", "{(OS[0]): S}", "{(I): 1, (F): 2}", "I %\t(I - I)", "A[7] +\t1", "[\"a\tb\", A[9]]", "\tI % (J - 2)", "map(A, {#\t% (I - 1)})"}
 
 // c09History: explicit enumeration of short HISTORIES of compile operations in one process. The alphabet mixes
 // expr.Compile under several option sets, the configuration-less compile that expr.Eval performs
@@ -354,12 +354,7 @@ func c09(r *report.Run) {
 				vals = vals[:6]
 			}
 			for _, v := range vals {
-				mk := func() *henv.Env {
-					if exprs[i] == nil {
-						return henv.MakeFull(v)
-					}
-					return henv.Make(v)
-				}
+				mk := func() *henv.Env { return mk2(exprs[i], v) }
 				env := mk()
 				runEnv := cfg.mode.RunEnv(env, names)
 				before := snap.StringSkip(runEnv, logType)
@@ -453,7 +448,10 @@ var logType = reflect.TypeOf((*henv.Log)(nil))
 
 func mk2(e *gen.Expr, v henv.Val) *henv.Env {
 	if e == nil {
-		return henv.MakeFull(v)
+		env := henv.MakeFull(v)
+		x := 5
+		env.PI = &x // a fresh pointer in every (otherwise equal) environment
+		return env
 	}
 	return henv.Make(v)
 }
